@@ -61,6 +61,10 @@ type DB struct {
 	unmergeableRoots int
 	tombstoned       bool
 	kvVersion        int // crdt.Root.KVVersion, root format version (0, 1)
+	// unretired holds versions that are contained in this tree but are still
+	// listed as current because retiring them failed; retried by the next
+	// Commit and before history is deleted.
+	unretired map[string][]byte
 }
 
 // Config defines how values are stored and (un)marshaled.
@@ -513,6 +517,7 @@ func (s *DB) Commit(ctx context.Context) (*string, error) {
 	if err != nil {
 		return nil, fmt.Errorf("store: %w", err)
 	}
+	s.moveMergedRoots(ctx, name, s.unretired)
 	s.moveMergedRoots(ctx, name, s.mergedRoots)
 	s.mergedRoots = map[string][]byte{name: rootBytes}
 	s.crdt.MergeSources = []string{name}
@@ -640,24 +645,32 @@ func getDependents(mergedRoots rootGraph) dependentRoots {
 	return dependents
 }
 
+// moveMergedRoots retires the given versions: files them under merged/ and
+// removes them from the current ones. A version that cannot be retired now is
+// remembered in s.unretired: it stays listed as current although a successor
+// exists, which is harmless for readers (they merge it again) but must not
+// be forgotten, or a later vacuum would treat it as history while it is
+// still listed.
 func (s *DB) moveMergedRoots(ctx context.Context, newRoot string, mergedRoots map[string][]byte) {
 	for key, mergedRoot := range mergedRoots {
 		if newRoot == key {
 			continue
 		}
 		err := s.merged.Store(ctx, key, mergedRoot)
-		if err != nil {
-			// LOG return nil, fmt.Errorf("store merged root: %w", err)
-			return
+		if err == nil {
+			_, err = s.s3Client.DeleteObjectWithContext(ctx, &s3.DeleteObjectInput{
+				Bucket: &s.root.BucketName,
+				Key:    aws.String(s.root.Prefix + key),
+			})
 		}
-		_, err = s.s3Client.DeleteObjectWithContext(ctx, &s3.DeleteObjectInput{
-			Bucket: &s.root.BucketName,
-			Key:    aws.String(s.root.Prefix + key),
-		})
 		if err != nil {
-			// LOG return nil, fmt.Errorf("delete merged root: s3: %w", err)
-			return
+			if s.unretired == nil {
+				s.unretired = map[string][]byte{}
+			}
+			s.unretired[key] = mergedRoot
+			continue
 		}
+		delete(s.unretired, key)
 	}
 }
 
@@ -931,6 +944,12 @@ func (s *DB) RemoveTombstones(ctx context.Context, before time.Time) error {
 func DeleteHistoricVersions(ctx context.Context, s *DB, before time.Time) error {
 	if s.readonly {
 		return ErrReadOnly
+	}
+	if len(s.unretired) > 0 && s.crdt.Source != nil {
+		s.moveMergedRoots(ctx, *s.crdt.Source, s.unretired)
+	}
+	if len(s.unretired) > 0 {
+		return fmt.Errorf("%d merged versions are still listed as current (retiring them failed earlier)", len(s.unretired))
 	}
 	roots, nodes, err := s.getHistoricRootsAndNodes(ctx, before, s.cfg.LogFunc)
 	if err != nil {
